@@ -15,5 +15,6 @@ CONSTANTS
   DEV_WalkRawName = FALSE
   DEV_LinkRawName = FALSE
   DEV_LinkOneSlash = FALSE
+  Unpriv <- MCFalse
 INVARIANT TypeOK
 CHECK_DEADLOCK FALSE
